@@ -9,6 +9,7 @@ import PyamgV.Proofs.ExtSmoothersRefine
 import PyamgV.Proofs.ExtC03XWitness
 import PyamgV.Proofs.ExtC03YWitness
 import PyamgV.Proofs.ExtC03YRat
+import PyamgV.Proofs.ExtPy3Cycle
 
 /-! # C03 — a cycle is the textbook multigrid recursion: fixed, linear and consistent
 
@@ -389,5 +390,28 @@ example (k : Nat) (x : Vec CRat) :
       Nat.iterate (fun e => e - MopY CRat.conj S2 .V 1 [L1, L6] (msem L1.A e)) k (sem ([c 1 0, c 1 0] : Vec CRat) - sem x) :=
   cycY_iter_error CRat.conj S2 .V 1 L1 [L6] (fun L hL => all_ok L (by simp at hL ⊢; rcases hL with h | h <;> simp [h]))
     [c 1 0, c 1 0] [c 2 (-1), c 2 1] (by rw [← sem_matVec]; exact congrArg sem exact_solution) k x
+
+/-! ## extension E57: `MultilevelSolver.__solve` as GENERATED from the working tree
+
+`Generated/PyLogic3_cycle.lean` (`harness/py2lean3_cycle.py`) is the translation of the method with the numerical work
+abstracted as events; `ExtPy3Cyc.runCycle L c k` runs it on the `L`-level mock hierarchy.  FINITE grids (evaluated by
+the kernel): `m + 1` levels for `m ∈ {1..5}`, cycle `V / W / F`, `cycles_per_level ∈ {1, 2, 3}` -- see META['partial']:
+no theorem for all depths. -/
+
+/-- (E57, finite grid) the generated `__solve` calls the smoothers and the coarse solver in the order `C03.traceM`,
+which is the order of the hand-written model (`visits_in_textbook_order`) -/
+restate generated_cycle_visits_grid_5x3x3 := PyamgV.ExtPy3Cyc.cycle_visits_grid_5x3x3
+/-- (E57, finite grid) the WHOLE trace of the generated `__solve` is the hand-written textbook data flow
+`ExtPy3Cyc.specCyc`: pre-smoothing on `(A_l, x, b)`, `b - A_l @ x`, restriction by `R_l`, zero coarse iterate, coarse
+solve on the last level / recursive visits on ONE coarse iterate, `x + P_l @ coarse_x`, post-smoothing -/
+restate generated_cycle_trace_grid_5x3x3 := PyamgV.ExtPy3Cyc.cycle_trace_grid_5x3x3
+/-- (E57, finite grid) the smoother / coarse-solver calls of `specCyc` are `C03.traceM` -/
+restate generated_cycle_spec_visits_grid_5x3x3 := PyamgV.ExtPy3Cyc.specCyc_visits_grid_5x3x3
+
+/-- non-vacuity (E57): 45 grid points; the deepest W-cycle of the grid has 280 events, 16 of them coarse solves -/
+example : PyamgV.ExtPy3Cyc.grid.length = 45 ∧
+    (PyamgV.ExtPy3Cyc.specCyc .W 1 0 5 (.obj "x") (.obj "b") 0).length = 280 ∧
+    ((PyamgV.ExtPy3Cyc.visits 6 (PyamgV.ExtPy3Cyc.specCyc .W 1 0 5 (.obj "x") (.obj "b") 0)).count "self.coarse_solver") = 16 := by
+  decide +kernel
 
 end PyamgV.Props.C03
